@@ -18,6 +18,7 @@ enum Op {
     Poll,
     Wait,
     WaitTimeout(u64), // ms
+    WaitTimeoutExit(u64, u64), // wait_timeout(d ms) during which the child exits, at_ms after the call started (virtual time)
     Pid,
     ExitStatusQ,
     Terminate,
@@ -85,6 +86,9 @@ fn kernel_status(pid: i32, block: bool) -> Option<ExitStatus> {
             return None;
         }
         let st = info.si_status();
+        if info.si_code == libc::CLD_DUMPED {
+            CORES_DUMPED.fetch_add(1, std::sync::atomic::Ordering::SeqCst);
+        }
         match info.si_code {
             libc::CLD_EXITED => Some(ExitStatus::Exited(st as u32)),
             libc::CLD_KILLED | libc::CLD_DUMPED => Some(ExitStatus::Signaled(st as u8)),
@@ -115,6 +119,7 @@ fn wait_dead_bounded(pid: i32, ms: u64) -> Option<ExitStatus> {
 }
 
 const IGNORED_BY_DEFAULT: [i32; 4] = [17, 18, 23, 28];
+static CORES_DUMPED: std::sync::atomic::AtomicU64 = std::sync::atomic::AtomicU64::new(0);
 
 fn fatal(sig: i32) -> bool {
     sig >= 1 && sig <= 64 && !IGNORED_BY_DEFAULT.contains(&sig) && ![19, 20, 21, 22, 32, 33].contains(&sig)
@@ -127,7 +132,14 @@ fn gen_history(rng: &mut Rng) -> Vec<Op> {
         let op = match rng.below(14) {
             0 | 1 => Op::Poll,
             2 => Op::Wait,
-            3 => Op::WaitTimeout(*rng.pick(&[0, 1, 5, 30])),
+            3 => {
+                if rng.chance(400) {
+                    let d = *rng.pick(&[50u64, 150, 220, 500, 1000]);
+                    Op::WaitTimeoutExit(d, rng.range(1, d - 1))
+                } else {
+                    Op::WaitTimeout(*rng.pick(&[0, 1, 5, 30]))
+                }
+            }
             4 => Op::Pid,
             5 => Op::ExitStatusQ,
             6 => Op::Terminate,
@@ -195,6 +207,7 @@ fn run_history(ctx: &mut Ctx, ops: &[Op], exit_how: (u8, u8), fl: &Flags, class:
     let mut truth = Truth::Running;
     let mut reaped_externally = false;
     let mut observed: Option<ExitStatus> = None; // what the library has reported (model of its cache)
+    let mut should_know = false; // a status query was made when the child was already dead / reaped by someone else
     let mut detached = false;
     let mut trace: Vec<String> = vec![];
     let hist = format!("{:?}", ops);
@@ -208,6 +221,15 @@ fn run_history(ctx: &mut Ctx, ops: &[Op], exit_how: (u8, u8), fl: &Flags, class:
             }
         }
         let was_observed = observed;
+        let knew = should_know;
+        let mut planned = false;
+        if let Op::WaitTimeoutExit(_, at) = op {
+            if truth == Truth::Running && !reaped_externally {
+                let now = crate::vclock::now_ns() as i64;
+                crate::vclock::plan_exit(now + *at as i64 * 1_000_000, kid.fifo_fd, pid, exit_how.0, exit_how.1);
+                planned = true;
+            }
+        }
         match op {
             Op::ChildExit => {
                 if truth == Truth::Running && !reaped_externally {
@@ -236,7 +258,7 @@ fn run_history(ctx: &mut Ctx, ops: &[Op], exit_how: (u8, u8), fl: &Flags, class:
         let m = run::monitored(|| match op {
             Op::Poll => format!("{:?}", p.poll()),
             Op::Wait => format!("{:?}", p.wait().map_err(|e| e.to_string())),
-            Op::WaitTimeout(ms) => format!("{:?}", p.wait_timeout(Duration::from_millis(*ms)).map_err(|e| e.to_string())),
+            Op::WaitTimeout(ms) | Op::WaitTimeoutExit(ms, _) => format!("{:?}", p.wait_timeout(Duration::from_millis(*ms)).map_err(|e| e.to_string())),
             Op::Pid => format!("{:?}", p.pid()),
             Op::ExitStatusQ => format!("{:?}", p.exit_status()),
             Op::Terminate => format!("{:?}", p.terminate().map_err(|e| e.raw_os_error())),
@@ -251,7 +273,27 @@ fn run_history(ctx: &mut Ctx, ops: &[Op], exit_how: (u8, u8), fl: &Flags, class:
         let evs = m.events();
         let got = m.result.clone().unwrap_or_else(|| format!("PANIC {}", m.panic.clone().unwrap_or_default()));
         let about = syscalls_about(&evs, pid);
-        trace.push(format!("#{} {:?} -> {}   syscalls: {:?}", i, op, got, about));
+        let mut exited_during = false;
+        if planned {
+            if crate::vclock::EXIT_FIRED_AT.load(std::sync::atomic::Ordering::SeqCst) != 0 {
+                // the kernel's verdict was taken (without reaping) at the moment the exit was delivered: the library may have reaped since
+                let si = crate::vclock::EXIT_SIGINFO.load(std::sync::atomic::Ordering::SeqCst);
+                let (code, st) = ((si & 0xff) as i32, (si >> 8) as i32);
+                let s = match code {
+                    libc::CLD_EXITED => Some(ExitStatus::Exited(st as u32)),
+                    libc::CLD_KILLED | libc::CLD_DUMPED => Some(ExitStatus::Signaled(st as u8)),
+                    _ => None,
+                };
+                if let Some(s) = s {
+                    truth = Truth::Dead(s);
+                    exited_during = true;
+                    ctx.count("exits_delivered_inside_wait_timeout", 1);
+                }
+            } else {
+                crate::vclock::EXIT_AT.store(0, std::sync::atomic::Ordering::SeqCst);
+            }
+        }
+        trace.push(format!("#{} {:?} -> {}   syscalls: {:?}{}", i, op, got, about, if exited_during { "   (child exited during this call)" } else { "" }));
         if m.cert.is_some() {
             viol(ctx, fl.c09, &format!("C09/hang/{:?}", op), "a status query blocked forever", mk_w(&trace, J::Null));
             break;
@@ -282,7 +324,7 @@ fn run_history(ctx: &mut Ctx, ops: &[Op], exit_how: (u8, u8), fl: &Flags, class:
         // ---- per-operation expectations
         let expect_status: Option<Option<ExitStatus>> = match op {
             // Some(Some(s)) = must report s; Some(None) = must report "still running"; None = not a query
-            Op::Poll | Op::WaitTimeout(_) | Op::Wait => {
+            Op::Poll | Op::WaitTimeout(_) | Op::WaitTimeoutExit(..) | Op::Wait => {
                 if let Some(s) = was_observed {
                     Some(Some(s))
                 } else if reaped_externally {
@@ -306,7 +348,13 @@ fn run_history(ctx: &mut Ctx, ops: &[Op], exit_how: (u8, u8), fl: &Flags, class:
                 (_, Some(s)) => format!("Ok(Some({:?}))", s),
                 (_, None) => "Ok(None)".to_string(),
             };
-            if got != want {
+            // the child exited while the call was in progress: a report of the true status and "still running"
+            // (exit in the very last back-off slice) are both legitimate answers
+            let late_none_ok = exited_during && got == "Ok(None)";
+            if exp.is_some() && !late_none_ok {
+                should_know = true;
+            }
+            if got != want && !late_none_ok {
                 let sigl = if was_observed.is_some() {
                     "C09/status-changed"
                 } else if reaped_externally {
@@ -321,6 +369,7 @@ fn run_history(ctx: &mut Ctx, ops: &[Op], exit_how: (u8, u8), fl: &Flags, class:
             if let Some(s) = exp {
                 if got == want {
                     observed = Some(s);
+                    should_know = true;
                 }
             }
             // if the library reported *something* final, remember it for the finality check
@@ -354,8 +403,11 @@ fn run_history(ctx: &mut Ctx, ops: &[Op], exit_how: (u8, u8), fl: &Flags, class:
                 };
                 ctx.count("signal_calls", 1);
                 let kills: Vec<&Ev> = evs.iter().filter(|e| e.child == 0 && (e.kind == k::KILL || e.kind == k::KILLPG || e.kind == k::TGKILL)).collect();
-                if was_observed.is_some() {
+                if was_observed.is_some() || knew {
                     ctx.count("signal_calls_after_observed", 1);
+                    if was_observed.is_none() && !kills.is_empty() {
+                        viol(ctx, fl.c10, "C10/signal-after-termination-was-observable", "a status query had already met the dead / externally reaped child, yet a later call still sent a signal to that process id", mk_w(&trace, J::arr_s(&kills.iter().map(|e| ilog::fmt_ev(e)).collect::<Vec<_>>())));
+                    }
                     if !kills.is_empty() {
                         // already reported above as signal-after-reaped
                     } else if got != "Ok(())" {
@@ -440,6 +492,11 @@ fn run_history(ctx: &mut Ctx, ops: &[Op], exit_how: (u8, u8), fl: &Flags, class:
 }
 
 pub fn run(ctx: &mut Ctx, fl: Flags) {
+    run_inner(ctx, fl);
+    ctx.count("children_that_really_dumped_core(kernel CLD_DUMPED seen by the monitor)", CORES_DUMPED.load(std::sync::atomic::Ordering::SeqCst) as i64);
+}
+
+fn run_inner(ctx: &mut Ctx, fl: Flags) {
     // every exit code
     ctx.family("codes", 256, |ctx, rng, i| {
         let ops = match rng.below(4) {
@@ -469,6 +526,18 @@ pub fn run(ctx: &mut Ctx, fl: Flags) {
         ctx.count("fatal_signals_covered", 1);
         ctx.distinct(&format!("sig{}", sig));
         run_history(ctx, &ops, (b'k', sig as u8), &fl, "signal");
+    });
+    // core-dumping signals with core files enabled: the "core dumped" flag must not leak into the reported signal number
+    ctx.family("core-dumps", 10 * ctx.n(2, 6), |ctx, rng, i| {
+        let sig = [3, 4, 5, 6, 7, 8, 11, 24, 25, 31][(i % 10) as usize];
+        let ops = match rng.below(3) {
+            0 => vec![Op::ChildExit, Op::Wait, Op::Poll, Op::ExitStatusQ],
+            1 => vec![Op::Poll, Op::ChildExit, Op::Poll, Op::Pid, Op::Terminate],
+            _ => vec![Op::ChildExit, Op::WaitTimeout(5), Op::Wait, Op::Kill],
+        };
+        ctx.count("core_dump_cases", 1);
+        ctx.distinct(&format!("core{}", sig));
+        run_history(ctx, &ops, (b'K', sig as u8), &fl, "core-dump");
     });
     // random histories
     let n = ctx.n(3000, 10_000);
